@@ -19,6 +19,7 @@ TraceNext ==
            x == e.a.w IN
        Judge(/\ Len(v) = Bytes(e.a.ty)
              /\ e.r.mem = Declared(o, v)                 \* in-memory bytes are the declared order
+             /\ e.r.vb = Declared(o, v)                  \* the volatile view of the object (as_bytes) spans exactly those bytes
              /\ e.r.native = v                           \* round trip
              /\ e.r.eq_self /\ e.r.eq_self_rev           \* equal to the value it represents, both directions
              /\ (e.r.eq_other <=> v = x) /\ (e.r.eq_other_rev <=> v = x)
